@@ -201,3 +201,48 @@ func H_C19_table_cells_once() {
 	vAssert("authored-spans", pt.Rows[0][0].RowSpan == int(rs-'0') && pt.Rows[0][0].ColSpan == int(cs-'0'))
 	vReach("end")
 }
+
+// H_C19_nested_lists: list items at any depth are returned once, in document order, however the inner list is attached.
+//
+//symgo:harness prop=C19 kernel=K2-nested-lists noreplay=1
+//symgo:desc outer <ul> or <ol> with 2..3 items; optionally an inner list placed inside one <li> or directly inside the outer list between two items (as browsers and the HTML parser accept), with 1..2 items of its own (all enumerated): every item marker occurs exactly once in the extracted text of every mode, in document order. (Enumerated structure)
+func H_C19_nested_lists() {
+	tag := []string{"ul", "ol"}[vAnyIntIn(0, 1)]
+	n := vAnyIntIn(2, 3)
+	inner := vAnyIntIn(0, 2) // 0 none, 1 inside an li, 2 directly inside the outer list
+	at := vAnyIntIn(0, n-2)  // after which outer item
+	var markers []string
+	outer := vEl(tag, nil)
+	mkInner := func() *html.Node {
+		l := vEl("ul", nil)
+		for j, m := 0, vAnyIntIn(1, 2); j < m; j++ {
+			mk := "In" + string(rune('A'+j))
+			markers = append(markers, mk)
+			l.AppendChild(vEl("li", nil, vTxt(mk)))
+		}
+		return l
+	}
+	for i := 0; i < n; i++ {
+		mk := "Out" + string(rune('A'+i))
+		markers = append(markers, mk)
+		li := vEl("li", nil, vTxt(mk))
+		if inner == 1 && i == at {
+			li.AppendChild(mkInner())
+		}
+		outer.AppendChild(li)
+		if inner == 2 && i == at {
+			outer.AppendChild(mkInner())
+		}
+	}
+	doc := &html.Node{Type: html.DocumentNode}
+	doc.AppendChild(vEl("html", nil, vEl("head", nil), vEl("body", nil, vEl("p", nil, vTxt("Intro")), outer)))
+	r := &Reader{doc: doc, filteredCache: map[NavigationExclusionMode][]parsedElement{}}
+	r.extractBody(doc)
+	for mode := NavigationExclusionNone; mode <= NavigationExclusionAggressive; mode++ {
+		txt := vAllText(r.getElements(mode))
+		seq, ok := vMarkerSeq(txt, markers)
+		vAssert("no-item-duplicated", ok)
+		vAssert("every-item-once-in-document-order", len(seq) == len(markers) && vIsSubseq(markers, seq))
+	}
+	vReach("end")
+}
